@@ -13,10 +13,14 @@
    closing entry has, at every moment, at least the remaining part of the 22 s budget ahead of it, counted from the
    step that accepted the connection request / began the disconnect; hence the timer loop gives up on such an
    attempt (the only place that forgets it and reports Error(Timeout)) no earlier than 22 s after it began, and
-   never while resends are left. The server's active-timeout rule and keepalive sufficiency over whole histories
-   are decided on the implementation by the timers / lifecycle streams with the timeout oracles and through the
-   correspondence under the virtual clock (partial). *)
-From UF Require Import Consts Base Frame Codec Sender Heap HalfConn Endpoint EndpointProofs EndpointTotal HandshakeHistory TimeoutHistory ServerTimeouts.
+   never while resends are left. Server, established connections (ServerActive.v), over whole histories: the
+   deadline of every active entry equals (server clock of the last step whose input held a handshake-ACK, data, sync
+   or ack frame from its address) + active_timeout_ms — the "last heard" clock is determined by the datagrams alone —
+   and the timeout pass of step() forgets a listed active entry and reports Error(Timeout) exactly when that deadline
+   has been reached, leaving every other entry as it was; every active entry is in the list the pass walks (at the pass
+   of every step of every history). Keepalive sufficiency (two endpoints and a network) is decided on the implementation by the timers /
+   lifecycle streams with the timeout oracles and through the correspondence under the virtual clock (partial). *)
+From UF Require Import Consts Base Frame Codec Sender Heap HalfConn Endpoint EndpointProofs EndpointTotal HandshakeHistory TimeoutHistory ServerGrammar ServerTimeouts ServerActive.
 
 Theorem C10_client_timer_semantics :
   forall c a now,
@@ -184,8 +188,71 @@ Example C10_server_handshake_run :
   match server_step (fst st) 23050 [] [] with Ok (s', evs, _, _) => evs = [EvError 7 0] /\ sv_events s' = [] | _ => False end.
 Proof. vm_compute. intuition discriminate. Qed.
 
+(* ---------- server: established connections over whole histories (ServerActive.v) ---------- *)
+Theorem C10_server_active_deadline_history :
+  forall cfg t0 seed ops,
+  let st := fold_left astep ops (server_new cfg t0 seed, fun _ => 0) in
+  fst st = fold_left sv_apply ops (server_new cfg t0 seed) /\
+  forall id h c0 to d, so_state (sv_obj_get (fst st) id) = SvActive h c0 to d ->
+    to = snd st (so_addr (sv_obj_get (fst st) id)) + ec_active_timeout (svc_ec cfg).
+Proof. exact server_active_deadline_history. Qed.
+Print Assumptions C10_server_active_deadline_history.
+
+(* the ghost of a step: an address was heard iff one of its datagrams parses to a refreshing frame *)
+Theorem C10_server_last_heard :
+  forall now inbox LA addr, la_frames inbox LA now addr = if heard inbox addr then now else LA addr.
+Proof. exact la_frames_closed. Qed.
+
+Theorem C10_server_active_timeout_rule :
+  forall s LA ids a now, AInv s LA ->
+  let r := sv_active_timeouts ids s a now in
+  (forall j h c0 to d, so_state (sv_obj_get s j) = SvActive h c0 to d ->
+     let addr := so_addr (sv_obj_get s j) in
+     (now < LA addr + ato s -> so_state (sv_obj_get (fst r) j) = SvActive h c0 to d) /\
+     (In j ids -> LA addr + ato s <= now ->
+        so_state (sv_obj_get (fst r) j) = SvFin /\ In (EvError addr 0) (ac_events (snd r)))) /\
+  (exists evs, ac_events (snd r) = ac_events a ++ evs /\
+     forall ad k, In (EvError ad k) evs ->
+       k = 0 /\ LA ad + ato s <= now /\ exists j, In j ids /\ so_addr (sv_obj_get s j) = ad /\ deadline_of (so_state (sv_obj_get s j)) <> None).
+Proof. exact server_active_timeout_rule. Qed.
+Print Assumptions C10_server_active_timeout_rule.
+
+(* every established entry is in the list the timeout pass walks, in every reachable state *)
+Theorem C10_server_active_listed_history :
+  forall cfg t0 seed ops id,
+  let s := fold_left sv_apply ops (server_new cfg t0 seed) in sv_is_active s id = true -> In id (sv_active s).
+Proof. exact server_active_listed_history. Qed.
+Print Assumptions C10_server_active_listed_history.
+
+(* the state the timeout pass of a step runs on satisfies the invariants (with the ghost of this step's input), the
+   pass walks the active list of that state, what is active after the step was active after the pass with the same
+   deadline, and the step's events begin with those accumulated up to and including the pass *)
+Theorem C10_server_step_pass :
+  forall s LA vnow inbox nonces s' evs sends rest,
+  WF s -> AInv s LA -> AL s -> server_step s vnow inbox nonces = Ok (s', evs, sends, rest) ->
+  let now := vnow - sv_t0 s in
+  exists s3 a3, WF s3 /\ AInv s3 (la_frames inbox LA now) /\ AL s3 /\ ato s3 = ato s /\
+    let r4 := sv_active_timeouts (sv_active s3) s3 a3 now in
+    KD (fst r4) s' /\ (exists tl, evs = ac_events (snd r4) ++ tl) /\ AL s'.
+Proof. exact server_step_pass. Qed.
+
+(* non-vacuity (active_timeout_ms = 3000): SYN at server clock 50, ACK at 100, a silent step at 1000, a sync frame
+   at 2500: last heard 2500, deadline 5500; the step at 5499 reports nothing, the step at 5500 reports the timeout *)
+Definition ex_aops : list sv_op :=
+  [SvStep 1050 [(7, ex_syn)] [77]; SvStep 1100 [(7, write_handshake_ack 77)] []; SvStep 2000 [] []; SvStep 3500 [(7, write_sync None None)] []].
+Example C10_server_active_run :
+  let st := fold_left astep ex_aops (server_new ex_scfg 1000 1, fun _ => 0) in
+  snd st 7 = 2500 /\ map (fun o => deadline_of (so_state o)) (sv_objs (fst st)) = [Some 5500] /\ sv_active (fst st) = [0] /\
+  match server_step (fst st) 6499 [] [] with Ok (_, evs, _, _) => evs = [] | _ => False end /\
+  match server_step (fst st) 6500 [] [] with Ok (s', evs, _, _) => evs = [EvError 7 0] /\ sv_active s' = [] | _ => False end.
+Proof. vm_compute. intuition discriminate. Qed.
+
 Check C10_client_handshake_timeout_history.
 Check C10_server_timer_budget.
 Check C10_client_active_timeout_history.
 Check C10_client_active_deadline_exact.
 Check C10_client_closing_timeout_history.
+Check C10_server_active_deadline_history.
+Check C10_server_active_timeout_rule.
+Check C10_server_active_listed_history.
+Check C10_server_step_pass.
